@@ -291,7 +291,7 @@ Lemma os2_permbits_spec perm nosub onlybm :
 Proof.
   intros Hp. assert (Hc : perm = 0 \/ perm = 1 \/ perm = 2 \/ perm = 3) by lia.
   unfold U16.
-  destruct Hc as [->|[->|[->|->]]]; destruct nosub, onlybm; vm_compute; repeat split; reflexivity.
+  destruct Hc as [ -> | [ -> | [ -> | -> ] ] ]; destruct nosub, onlybm; vm_compute; repeat split; reflexivity.
 Qed.
 
 Lemma os2_sel_spec i :
@@ -318,6 +318,9 @@ Proof.
   rewrite !get32_put32_id by assumption. reflexivity.
 Qed.
 
+Lemma at_eof_puti16 z r : at_eof (puti16 z ++ r) = false.
+Proof. reflexivity. Qed.
+
 Lemma os2_roundtrip_gen i : os2_nf i -> M_os2_decode (M_os2_encode i) = Ok i.
 Proof.
   intros (Hwe & Hwi & Hreg & Hfi & Hla & Has & Hde & Hwa & Hwd & Hga & Hca & Hxh & Hav &
@@ -343,9 +346,177 @@ Proof.
   replace ((4 <=? 3)%N) with false by reflexivity.
   replace ((4 <? 2)%N) with false by reflexivity.
   cbv zeta. rewrite P1, P2, P3, S1, S2, S3, S4, Hub.
-  (* the remaining part of the table is not empty *)
-  rewrite (puti16_cons (os_ascent i)). cbn [app].
-  rewrite <- (puti16_cons (os_ascent i)).
-  change (((of_i16 (os_ascent i) / 256) mod 256)%N :: (of_i16 (os_ascent i) mod 256)%N :: ?r)
-    with (puti16 (os_ascent i) ++ ?r).
-Abort.
+  rewrite at_eof_puti16. rt.
+  rewrite get32_put32. cbn [oget]; cbv beta iota. rt.
+  assert (Ecap : (if 0 <? os_capheight i then os_capheight i else 0) = os_capheight i).
+  { destruct (0 <? os_capheight i) eqn:E; lia. }
+  assert (Exh : (if 0 <? os_xheight i then os_xheight i else 0) = os_xheight i).
+  { destruct (0 <? os_xheight i) eqn:E; lia. }
+  assert (Ecp : (os_cpr i / 4294967296 * 4294967296 + os_cpr i mod 4294967296)%N = os_cpr i) by lia.
+  rewrite Ecap, Exh, Ecp.
+  destruct i; reflexivity.
+Qed.
+
+Lemma os2_encode_length i :
+  length (os_sub i) = 10%nat -> length (os_panose i) = 10%nat -> length (os_ur i) = 4%nat ->
+  length (M_os2_encode i) = 96%nat.
+Proof.
+  intros H1 H2 H3. unfold M_os2_encode.
+  destruct (os_ur i) as [|a [|b [|c [|d [|e t]]]]]; try discriminate.
+  assert (Hv : length (os2_vendor (os_vendor i)) = 4%nat).
+  { unfold os2_vendor. destruct (length (os_vendor i) =? 4)%nat eqn:E; [now apply Nat.eqb_eq|reflexivity]. }
+  rewrite !app_length, puti16s_length, H1, H2, Hv. reflexivity.
+Qed.
+
+Lemma os2_decode_safe b : safe (M_os2_decode b).
+Proof.
+  unfold M_os2_decode. repeat (apply oget_safe; intros [? ?]).
+  destruct (5 <? _)%N; [apply safe_err|]. cbv zeta.
+  destruct (at_eof _); [apply safe_ok|].
+  repeat (apply oget_safe; intros [? ?]).
+  destruct (_ <? 2)%N; [apply safe_ok|].
+  repeat (apply oget_safe; intros [? ?]). apply safe_ok.
+Qed.
+
+(* ------------------------------------------------------------------ *)
+(* every Info that OS/2 Read returns is in the normal form             *)
+
+Local Open Scope N_scope.
+
+Lemma land_pow2_zero s k : N.testbit s k = false -> N.land s (2 ^ k) = 0.
+Proof.
+  intros H. apply N.bits_inj. intros n. rewrite N.land_spec, N.bits_0, N.pow2_bits_eqb.
+  destruct (N.eqb_spec k n) as [<-|Hne]; [now rewrite H|apply andb_false_r].
+Qed.
+
+Lemma has_testbit s k : has s (2 ^ k) = true -> N.testbit s k = true.
+Proof.
+  unfold has. intros H. destruct (N.testbit s k) eqn:E; [reflexivity|].
+  rewrite (land_pow2_zero s k E) in H. discriminate.
+Qed.
+
+Lemma sel_regular_excl s :
+  has s 64 = true -> (N.land s 96 =? 32) = false /\ (N.land s 65 =? 1) = false.
+Proof.
+  intros H. change 64 with (2 ^ 6) in H. apply has_testbit in H.
+  split; apply N.eqb_neq; intros E.
+  - assert (H0 : N.testbit (N.land s 96) 6 = N.testbit 32 6) by now rewrite E.
+    rewrite N.land_spec, H in H0. vm_compute in H0. discriminate.
+  - assert (H0 : N.testbit (N.land s 65) 6 = N.testbit 1 6) by now rewrite E.
+    rewrite N.land_spec, H in H0. vm_compute in H0. discriminate.
+Qed.
+
+Lemma lor_u32 a b : U32 a -> U32 b -> U32 (N.lor a b).
+Proof.
+  unfold U32. intros Ha Hb.
+  destruct (N.eq_dec a 0) as [->|Ha0]; [now rewrite N.lor_0_l|].
+  destruct (N.eq_dec b 0) as [->|Hb0]; [now rewrite N.lor_0_r|].
+  change 4294967296 with (2 ^ 32) in *.
+  assert (Hl : N.lor a b <> 0) by (intros E; apply N.lor_eq_0_iff in E; tauto).
+  apply N.log2_lt_pow2; [lia|]. rewrite N.log2_lor.
+  apply N.max_lub_lt; apply N.log2_lt_pow2; lia.
+Qed.
+
+Lemma ldiff_u32 a b : U32 a -> U32 (N.ldiff a b).
+Proof.
+  unfold U32. intros Ha. change 4294967296 with (2 ^ 32) in *.
+  assert (Hs : N.shiftr (N.ldiff a b) 32 = 0).
+  { rewrite N.shiftr_ldiff. rewrite (N.shiftr_div_pow2 a 32), N.div_small by exact Ha.
+    apply N.ldiff_0_l. }
+  rewrite N.shiftr_div_pow2 in Hs. apply N.div_small_iff in Hs; [exact Hs|lia].
+Qed.
+
+Lemma ur_bit57_props ur set :
+  length ur = 4%nat -> Forall U32 ur ->
+  length (ur_bit57 ur set) = 4%nat /\ Forall U32 (ur_bit57 ur set) /\
+  ur_bit57 (ur_bit57 ur set) set = ur_bit57 ur set.
+Proof.
+  intros Hl Hf. destruct ur as [|a [|b [|c [|d [|e t]]]]]; try discriminate.
+  inversion Hf as [|? ? Ha Hf1]; subst. inversion Hf1 as [|? ? Hb Hf2]; subst.
+  cbn [ur_bit57]. split; [reflexivity|]. split.
+  - constructor; [exact Ha|]. constructor; [|exact Hf2].
+    destruct set; [apply lor_u32; [exact Hb|unfold U32; lia]|now apply ldiff_u32].
+  - f_equal. f_equal. destruct set.
+    + rewrite <- N.lor_assoc. now rewrite N.lor_diag.
+    + apply N.bits_inj. intros n. rewrite !N.ldiff_spec.
+      destruct (N.testbit b n), (N.testbit 33554432 n); reflexivity.
+Qed.
+
+Lemma get32s4_range b ur r : Bytes b -> get32s4 b = Some (ur, r) ->
+  length ur = 4%nat /\ Forall U32 ur /\ Bytes r.
+Proof.
+  unfold get32s4. intros Hb H.
+  destruct (get32 b) as [[x1 b1]|] eqn:E1; [|discriminate].
+  destruct (get32 b1) as [[x2 b2]|] eqn:E2; [|discriminate].
+  destruct (get32 b2) as [[x3 b3]|] eqn:E3; [|discriminate].
+  destruct (get32 b3) as [[x4 b4]|] eqn:E4; [|discriminate].
+  injection H as <- <-.
+  destruct (get32_range _ _ _ Hb E1) as [R1 B1]. destruct (get32_range _ _ _ B1 E2) as [R2 B2].
+  destruct (get32_range _ _ _ B2 E3) as [R3 B3]. destruct (get32_range _ _ _ B3 E4) as [R4 B4].
+  split; [reflexivity|]. split; [|exact B4]. repeat constructor; assumption.
+Qed.
+
+Local Open Scope Z_scope.
+
+(* the record Read builds, from components in range *)
+Lemma os2_built_nf weight width sel permbits first last asc desc wasc wdesc gap cap xh avg
+      sub family panose vendor ur cpr :
+  U16 weight -> U16 width -> U16 first -> U16 last ->
+  I16 asc -> I16 desc -> I16 wasc -> I16 wdesc -> I16 gap ->
+  0 <= cap <= 32767 -> 0 <= xh <= 32767 -> I16 avg ->
+  length sub = 10%nat -> Forall I16 sub -> I16 family ->
+  length panose = 10%nat -> length vendor = 4%nat ->
+  length ur = 4%nat -> Forall U32 ur -> U64 cpr ->
+  os2_nf (mkOs2 weight width (N.land sel 96 =? 32)%N (N.land sel 65 =? 1)%N (has sel 64) (has sel 512)
+                first last asc desc wasc wdesc gap cap xh avg sub family panose vendor
+                (ur_bit57 ur (last =? 65535)%N) cpr
+                (if has permbits 8 then 1 else if has permbits 4 then 2 else if has permbits 2 then 3 else 0)
+                (has permbits 256) (has permbits 512)).
+Proof.
+  intros. destruct (ur_bit57_props ur (last =? 65535)%N H16 H17) as (U1 & U2 & U3).
+  unfold os2_nf; cbn [os_weight os_width os_bold os_italic os_regular os_oblique os_first os_last
+    os_ascent os_descent os_winascent os_windescent os_linegap os_capheight os_xheight os_avg
+    os_sub os_family os_panose os_vendor os_ur os_cpr os_perm os_nosub os_onlybm].
+  refine (conj _ (conj _ (conj _ (conj _ (conj _ (conj _ (conj _ (conj _ (conj _ (conj _
+         (conj _ (conj _ (conj _ (conj (conj _ _) (conj _ (conj _ (conj _ (conj (conj _ (conj _ _))
+         (conj _ _))))))))))))))))))); try assumption.
+  - intros Hr. now apply sel_regular_excl.
+  - destruct (has permbits 8), (has permbits 4), (has permbits 2); lia.
+Qed.
+
+Lemma pos_or_zero_range z : I16 z -> 0 <= (if 0 <? z then z else 0) <= 32767.
+Proof. unfold I16. intros H. destruct (0 <? z) eqn:E; lia. Qed.
+
+Lemma os2_decode_nf b i : Bytes b -> M_os2_decode b = Ok i -> os2_nf i.
+Proof.
+  intros Hb H. unfold M_os2_decode in H. peel H.
+  destruct (5 <? _)%N in H; [discriminate|]. cbv zeta in H.
+  (* ranges of the version-0 part *)
+  destruct (get16_range _ _ _ Hb E) as [_ B0].
+  destruct (geti16_range _ _ _ B0 E0) as [Ravg B1].
+  destruct (get16_range _ _ _ B1 E1) as [Rwe B2].
+  destruct (get16_range _ _ _ B2 E2) as [Rwi B3].
+  destruct (get16_range _ _ _ B3 E3) as [_ B4].
+  pose proof (geti16s_some _ _ _ _ E4) as Lsub.
+  destruct (geti16s_range _ _ _ _ B4 E4) as [Rsub B5].
+  destruct (geti16_range _ _ _ B5 E5) as [Rfam B6].
+  pose proof (proj2 (getn_some _ _ _ _ E6)) as Lpan.
+  destruct (getn_range _ _ _ _ B6 E6) as [_ B7].
+  destruct (get32s4_range _ _ _ B7 E7) as (Lur & Rur & B8).
+  pose proof (proj2 (getn_some _ _ _ _ E8)) as Lven.
+  destruct (getn_range _ _ _ _ B8 E8) as [_ B9].
+  destruct (get16_range _ _ _ B9 E9) as [_ B10].
+  destruct (get16_range _ _ _ B10 E10) as [Rfi B11].
+  destruct (get16_range _ _ _ B11 E11) as [Rla B12].
+  assert (Z0 : I16 0) by apply I16_0.
+  assert (C0 : 0 <= 0 <= 32767) by lia.
+  assert (U0 : U64 0) by (unfold U64; lia).
+  destruct (at_eof _) in H.
+  - injection H as <-. now apply os2_built_nf.
+  - peel H. ranges.
+    destruct (_ <? 2)%N in H.
+    + injection H as <-. now apply os2_built_nf.
+    + peel H. ranges. injection H as <-.
+      apply os2_built_nf; try assumption; try (now apply pos_or_zero_range).
+      unfold U64, U32 in *. lia.
+Qed.
